@@ -24,14 +24,19 @@ import (
 type inputString struct {
 	s       string
 	runes   []rune
+	offsets []int // byte offset in s of every code point in runes
 	pointer int
 	eof     bool
 	length  int
 }
 
 func newInputString(s string) *inputString {
-	i := &inputString{runes: []rune(s), pointer: -1}
+	i := &inputString{runes: make([]rune, 0, len(s)), offsets: make([]int, 0, len(s)), pointer: -1}
 	i.s = s
+	for offset, r := range s {
+		i.runes = append(i.runes, r)
+		i.offsets = append(i.offsets, offset)
+	}
 	i.length = len(i.runes)
 	return i
 }
@@ -47,8 +52,17 @@ func (i *inputString) nextCodePoint() rune {
 	return r
 }
 
+// currentIsInvalid tells if the current code point stands for a byte which is not part of a valid UTF-8 sequence.
+// Such a byte is decoded as utf8.RuneError with a width of one byte, whereas a genuine U+FFFD is three bytes wide.
 func (i *inputString) currentIsInvalid() bool {
-	return i.runes[i.pointer] == utf8.RuneError
+	if i.runes[i.pointer] != utf8.RuneError {
+		return false
+	}
+	end := len(i.s)
+	if i.pointer+1 < i.length {
+		end = i.offsets[i.pointer+1]
+	}
+	return end-i.offsets[i.pointer] == 1
 }
 
 func (i *inputString) getCurrentAsByte() byte {
@@ -56,11 +70,7 @@ func (i *inputString) getCurrentAsByte() byte {
 		i.eof = true
 		return 0
 	}
-	var pos int
-	for j := 0; j < i.pointer; j++ {
-		pos += utf8.RuneLen(i.runes[j])
-	}
-	return i.s[pos]
+	return i.s[i.offsets[i.pointer]]
 }
 
 func (i *inputString) rewindLast() {
